@@ -86,9 +86,19 @@ def collect_diffs(ctx, trace_path, mode, nchunk=NCHUNK, pair=False):
 
 def feat(r):
     """Input class of a record (part of the failure signature): how a source operand is supplied."""
+    if r.get('omod'):
+        return 'omod'                   # VOP3 output modifier (mul2 / mul4 / div2)
+    if r.get('clamp'):
+        return 'clamp'                  # VOP3 CLAMP bit
     if 'dsel' in r:
         return 'sdwa'                   # sub-dword addressing form
     codes = [(r[k]['c'], r[k].get('n', 1)) for k in ('s0', 's1', 's2') if r.get(k)]
+    if 'opsel' in r:                    # packed binary32 (VOP3P)
+        if any(128 <= c <= 248 for c, _ in codes):
+            return 'pkinl'              # an inline constant as a packed source
+        if r.get('abs', 0) != r.get('neg', 0):
+            return 'pkneg'              # NEG_HI differs from NEG
+        return 'pk'
     if any(193 <= c <= 208 for c, _ in codes):
         return 'neginl'                 # negative inline integer constant
     if any(240 <= c <= 248 and n == 2 for c, n in codes):
@@ -99,7 +109,9 @@ def feat(r):
 def signature(r, out, pid):
     s = {'kind': 'isa_mismatch' if pid == 'C03' else 'lane_structure', 'arch': r['arch'], 'fmt': r['f'], 'op': r['op'],
          'out': out, 'st': r['st']}
-    f = feat(r) if pid == 'C03' else ''
+    f = feat(r)
+    if pid != 'C03' and f not in ('clamp', 'omod'):
+        f = ''
     if f:
         s['feat'] = f
     return s
